@@ -414,6 +414,41 @@ func oracleC15(r *Rng, n int, thorough bool, seeds []string) *OracleResult {
 					fs = append(fs, clauseFail{"input-modified", "a second packet built from the same input is " + maskedShow(again) + ", the first was " + maskedShow(base)})
 				}
 			}
+			// two packets derived from ONE input, each given the input's options and then its
+			// own additions (a server answering a request to two relays, a client deriving
+			// request and inform from one offer): the first keeps what IT was given (seeded
+			// change C17-16: WithRequestedOptions appending in place to bytes the copies share)
+			if c.in != nil {
+				// the input as a decoder leaves it: option values with spare capacity behind them
+				// (append from nil rounds 4 octets up to 8)
+				c2 := *c
+				in2 := *c.in
+				in2.Options = dhcpv4.Options{}
+				for k, v := range c.in.Options {
+					if v == nil {
+						in2.Options[k] = nil
+					} else {
+						in2.Options[k] = append(make([]byte, 0, len(v)+8), v...)
+					}
+				}
+				c2.in = &in2
+				for _, code := range []dhcpv4.OptionCode{dhcpv4.OptionParameterRequestList, dhcpv4.OptionRelayAgentInformation, dhcpv4.OptionClientIdentifier} {
+					if len(c.in.Options[code.Code()]) == 0 {
+						continue
+					}
+					a := c2.call([]dhcpv4.Modifier{dhcpv4.WithOptionCopied(c2.in, code), dhcpv4.WithRequestedOptions(dhcpv4.OptionNTPServers)})
+					sa := showPkt4(a)
+					c2.call([]dhcpv4.Modifier{dhcpv4.WithOptionCopied(c2.in, code), dhcpv4.WithRequestedOptions(dhcpv4.OptionBootfileName, dhcpv4.OptionTFTPServerName)})
+					if now := showPkt4(a); now != sa {
+						fs = append(fs, clauseFail{"built-packet-changed-later", "a packet derived from the input (option " + fmt.Sprint(code.Code()) + " copied, then its own requested options) was " + sa + " and is " + now + " after a second packet was derived from the same input"})
+						break
+					}
+					if after := showPkt4(c2.in); after != before {
+						fs = append(fs, clauseFail{"input-modified", "the input packet was " + before + " and is " + after + " after two packets were derived from it"})
+						break
+					}
+				}
+			}
 			fs = append(fs, checkModifiersLast(c, full)...)
 			fs = append(fs, checkPrevails(c, full)...)
 			fs = append(fs, checkReuse(c, full)...)
